@@ -493,4 +493,56 @@ def r8_11(ctx):
     ctx.floor(n, 2, "descend tests in the tree walks")
 
 
-RULES = [r8_3, r8_4, r8_5, r8_6, r8_7, r8_8, r8_9, r8_10, r8_11]
+def r8_12(ctx):
+    ctx.rule("R8.12", "the filled part of a progress bar is computed from the CLAMPED completed value: in ProgressBar.__rich_console__ the quantity X in int(width * 2 * X / self.total) is min(self.total, max(0, self.completed)) (either nesting), so 0 <= complete_halves <= 2 * width and neither the filled nor the remaining part can exceed the bar's width; the raw self.completed may be above the total or negative")
+    from ..astutil import inline as _inl, single_defs as _sdf
+    f = ctx.repo.fn("progress_bar:ProgressBar.__rich_console__")
+    m = f.module
+    sd = _sdf(f.node)
+    sites = []
+    for x in walk_local(f.node):
+        if isinstance(x, ast.BinOp) and isinstance(x.op, ast.Div) and norm(x.right) == "self.total":
+            facs = []
+
+            def factors(e):
+                if isinstance(e, ast.BinOp) and isinstance(e.op, ast.Mult):
+                    factors(e.left)
+                    factors(e.right)
+                else:
+                    facs.append(e)
+            factors(x.left)
+            if any(norm(_inl(a, sd)).startswith("min(") or norm(a) == "width" for a in facs):
+                sites.append((x, facs))
+    if not sites:
+        raise AnalysisError("ProgressBar.__rich_console__: no `width * 2 * X / self.total` found; the fill computation is written in a form this rule does not read")
+    for x, facs in sites:
+        others = [a for a in facs if not (isinstance(a, ast.Constant) or norm(a) == "width")]
+        where = f"{m.relpath}:{x.lineno}"
+        if len(others) != 1:
+            raise AnalysisError(f"ProgressBar.__rich_console__: `{short(x)}` has {len(others)} non-constant factors besides width")
+        X = _inl(others[0], sd)
+
+        def clamp(e):
+            """(lo, hi, inner) for min(hi, max(lo, inner)) / max(lo, min(hi, inner)), argument order free"""
+            if not (isinstance(e, ast.Call) and norm(e.func) in ("min", "max") and len(e.args) == 2):
+                return None
+            outer = norm(e.func)
+            for i in (0, 1):
+                bound, rest = e.args[i], e.args[1 - i]
+                if isinstance(rest, ast.Call) and norm(rest.func) in ("min", "max") and norm(rest.func) != outer and len(rest.args) == 2:
+                    for j in (0, 1):
+                        b2, inner = rest.args[j], rest.args[1 - j]
+                        hi, lo = (bound, b2) if outer == "min" else (b2, bound)
+                        if norm(hi) == "self.total" and isinstance(lo, ast.Constant) and lo.value == 0:
+                            return (lo, hi, inner)
+            return None
+        c = clamp(X)
+        if c is not None and norm(c[2]) == "self.completed":
+            ctx.ok(where, "fill computed from min(self.total, max(0, self.completed))", f.fq)
+        elif norm(X) == "self.completed" or (c is None and "self.completed" in norm(X) and "min(" not in norm(X)):
+            ctx.violation(f.fq, short(x), where, f"`{short(x)}` uses the unclamped `{norm(X)}`: with completed > total the filled part alone is wider than the bar (ProgressBar(total=100, completed=150) at width 60 renders 61+ cells), with completed < 0 the remaining part is")
+        else:
+            raise AnalysisError(f"ProgressBar.__rich_console__: the fill quantity `{norm(X)}` is neither the clamp of self.completed to [0, self.total] nor the raw value; not decided")
+
+
+RULES = [r8_3, r8_4, r8_5, r8_6, r8_7, r8_8, r8_9, r8_10, r8_11, r8_12]
